@@ -216,7 +216,25 @@ def run(ctx):
     tasks = [('matches',)] + [('find', nr, npat, npipe) for nr in range(0, (4 if big else 3)) for npat in (1, 2) for npipe in (0, 1, 2) if not (nr == 0 and npat == 2)] + [('rr', n) for n in range(0, 6)]
     with ProcessPoolExecutor(max_workers=14, mp_context=mp.get_context('fork')) as pool:
         res = list(pool.map(_worker, tasks))
+        from props import c34inject
+        ires = list(pool.map(c34inject._worker, c34inject.tasks(ctx.tier)))
+    ctx.bounds['resolve_inject_target'] = 'Coordinator::resolve_inject_target with 0..2 groups, 0..2 (thorough 3) replica groups and placements of the addressed group under distinct symbolic names; find_target_pipeline and select_replica cut to arbitrary answers'
     binp = None; seen = set()
+    for r in ires:
+        tgt = 'Coordinator::resolve_inject_target'; cls = 'groups / replica groups / placements = %s' % ' / '.join(r['spec'][1:])
+        if r.get('error'):
+            ctx.inconclusive.append('%s (%s): %s' % (tgt, cls, r['error'])); continue
+        for why in sorted(set(r['inconclusive'])): ctx.inconclusive.append('%s (%s): %s' % (tgt, cls, why))
+        ctx.queries += r['queries']; ctx.solver_s += r['solver_s']
+        ctx.add_obligations(tgt, r['verdicts'], cls=cls)
+        ctx.samples.append({'target': tgt, 'class': cls, 'paths': r['paths'], 'obligations': len(r['verdicts'])})
+        for v in r['verdicts']:
+            if v['status'] != 'violated': continue
+            key = '%s:%s' % (tgt, v['name'].split(':')[0])
+            if key in seen: continue
+            seen.add(key)
+            if binp is None: binp = replay.build('cl')
+            ctx.findings.append(Finding(key, '%s (%s): %s violated (witness %s)' % (tgt, cls, v['name'], v.get('witness')), [binp, 'inject'], {'witness': v.get('witness')}))
     for r in res:
         sp = r['spec']
         tgt = {'matches': 'event_type_matches', 'find': 'find_target_pipeline', 'rr': 'ReplicaGroup::select_replica'}[sp[0]]
